@@ -39,3 +39,17 @@ def replay_load_basic(rec):
     else:
         bad = t in ("true", "false", "null") or bool(re.fullmatch(r"-?[0-9]+", t))
     return {"reproduced": bad, "signature": f"load_basic:{type(r).__name__}", "text": s, "result": repr(r)}
+
+
+def replay_json_scalar(rec):
+    """Lemma witness: a JSON scalar text that yaml mode does not read as json mode does."""
+    import json
+    from jsonargparse._loaders_dumpers import yaml_load
+    s = _s(rec)
+    try:
+        want = json.loads(s)
+    except Exception:
+        return {"reproduced": False, "note": "witness is not valid JSON", "text": s}
+    got = yaml_load(s)
+    bad = type(got) is not type(want) or got != want
+    return {"reproduced": bad, "signature": "json-scalar-read-differently-in-yaml-mode" if bad else "", "text": s, "json": repr(want), "yaml_mode": repr(got)}
